@@ -100,7 +100,7 @@ def check_expm(ctx, A, v, dt, m, kd_h, hermitian, style=None):
         Af, style, _ = kr.make_callable(np.random.default_rng(n * 991 + m + int(hermitian)), A, style)
         ctx.event('callable_style:' + style)
         detail['callable_style'] = style
-        r = ptn.expm_krylov(Af, v, dt, m, hermitian=hermitian)
+        r = ptn.expm_krylov(Af, v, dt, m, hermitian=(hermitian, np.bool_(hermitian), int(hermitian))[(n + m) % 3])
     r = np.asarray(r)
     tag = 'expm-h' if hermitian else 'expm-g'
     ctx.ok(f'{tag}.start-unmodified', np.array_equal(v, v0), 'start vector modified', detail)
